@@ -169,6 +169,13 @@ class ValueKinds(Semantics):
         V = rm.vocab(specs)
         g = rm.Gen(d, V, self.depth(tier), focus='args')
         ms = [dict(ast=g.top(), deco=[d.int(0, 99) for _ in range(d.int(4, 12))]) for _ in range(6)]
+        fl = sorted(V.get('float', []))
+        close = [x for i, x in enumerate(fl) if (i > 0 and x - fl[i - 1] < 0.01) or (i + 1 < len(fl) and fl[i + 1] - x < 0.01)]
+        if close:
+            # two fixed-point values next to each other occur: a matcher naming one of them (alone, and as an exclusion)
+            x = d.choice(close)
+            arg = ['arg', None, ['float', x]]
+            ms[-1] = dict(ast=[[['msg', None, None, None, [[arg], []]]], []] if d.chance(0.6) else [[['msg', None, None, None, [[], [arg]]]], []], deco=[d.int(0, 99) for _ in range(6)])
         return dict(dialect=d.choice(['new', 'old']), specs=specs, matchers=ms, before=gen_session_state(d, V, ms))
 
 
@@ -201,6 +208,112 @@ class NilArgs(Semantics):
         return dict(dialect=d.choice(['new', 'old']), specs=specs, matchers=ms, before=gen_session_state(d, V, ms))
 
 
+class GdbUniverse(Stage):
+    """universes in which connections come and go (GDB mode: libwayland destroys a connection, a later one lives at its address
+    and gets the next name): the connection part of a matcher is evaluated against the names the reference model gives"""
+    name = 'gdb-universe'
+
+    def examples(self, tier):
+        return 120 if tier == 'quick' else 14 * 1000
+
+    def gen(self, d, tier):
+        prof = dict(reuse=0.7, weights=dict(delete=14, bind=14, message=50, server_event=8, sync=10, nulls=6))
+        specs = histgen.history_with_destroys(d, prof, nconn=d.int(2, 3))
+        V = rm.vocab(specs)
+        g = rm.Gen(d, V, 1)
+        ms = []
+        conns = V.get('conn') or ['A']
+        for _ in range(6):
+            ast = g.top()
+            ms.append(dict(ast=ast))
+        # plus plain connection-only and connection+type texts (every connection of the universe, and one that does not exist)
+        texts = []
+        for _ in range(d.int(2, 5)):
+            c = d.choice(conns + [rm.letters(len(conns)).upper()])
+            texts.append(d.choice(['%s:', '%s: *', '%s: wl_display', '%s: .sync', '[%s, A]: wl_display', '[* ! %s]:', '* ! %s:']) % c)
+        return dict(specs=specs, matchers=ms, texts=texts)
+
+    def execute(self, case):
+        from core import matcher
+        from core.util import no_color
+        from .. import tracker
+        res = Result()
+        res.evals = 0
+        tr = tracker.GdbTracker('')
+        msgs, names = [], {}
+        try:
+            for spec in case['specs']:
+                if spec.get('destroy'):
+                    tr.destroy(spec['conn'])
+                    continue
+                try:
+                    msg, rec = tr.apply(spec)
+                except tracker.GdbModeLost as e:
+                    res.bad('gdb-universe:message-lost', str(e))
+                    return res
+                msgs.append(msg)
+                names[id(msg)] = rec['conn'].name
+        finally:
+            tr.close()
+        rm.CONN_NAMES = names
+        try:
+            nt = 0
+            for mm in case['matchers']:
+                plain = rm.render(mm['ast'], rm.Plain())
+                try:
+                    p = matcher.parse(plain).simplify()
+                except RuntimeError as e:
+                    res.bad('documented-syntax-rejected:plain', '%r rejected: %s' % (plain, no_color(str(e)).splitlines()[0][:200]))
+                    continue
+                sel = 0
+                for m in msgs:
+                    exp, got = rm.ev(mm['ast'], m), p.matches(m)
+                    res.evals += 1
+                    sel += bool(got)
+                    if exp is None:
+                        res.count('unspecified-by-the-documentation')
+                    elif exp != got:
+                        res.bad('meaning:%s:%s' % ('selects-too-much' if got else 'selects-too-little', divergence(mm['ast'])),
+                                '%r on %s (connection %s by the model): implementation %r, documented meaning %r' % (plain, no_color(str(m)), names[id(m)], got, exp))
+                if 0 < sel < len(msgs):
+                    nt += 1
+            for text in case['texts']:
+                try:
+                    p = matcher.parse(text).simplify()
+                except RuntimeError as e:
+                    res.bad('documented-syntax-rejected:plain', '%r rejected: %s' % (text, no_color(str(e)).splitlines()[0][:200]))
+                    continue
+                for m in msgs:
+                    exp = self.ev_text(text, m, names[id(m)])
+                    got = p.matches(m)
+                    res.evals += 1
+                    if exp is not None and exp != got:
+                        res.bad('meaning:connection-part:%s' % ('selects-too-much' if got else 'selects-too-little'),
+                                '%r on %s (connection %s by the model): implementation %r, documented meaning %r' % (text, no_color(str(m)), names[id(m)], got, exp))
+        finally:
+            rm.CONN_NAMES = None
+        closed = sum(1 for x in case['specs'] if x.get('destroy'))
+        res.nontrivial = closed >= 1 and len(set(names.values())) >= 3
+        if closed: res.label('connection-destroyed-and-address-reused')
+        res.sample = dict(texts=case['texts'], matchers=[rm.render(mm['ast'], rm.Plain()) for mm in case['matchers'][:3]], messages=len(msgs))
+        return res
+
+    @staticmethod
+    def ev_text(text, m, name):
+        """the handful of connection-part forms of `texts`, evaluated by hand"""
+        import re as _re
+        on = lambda: m.obj.type
+        mm = _re.fullmatch(r'(\w+):( \*)?', text)
+        if mm: return name == mm.group(1)
+        mm = _re.fullmatch(r'(\w+): \.sync', text)
+        if mm: return name == mm.group(1) and m.name == 'sync'
+        mm = _re.fullmatch(r'\[\* ! (\w+)\]:', text)
+        if mm: return name != mm.group(1)
+        mm = _re.fullmatch(r'\* ! (\w+):', text)
+        if mm: return name != mm.group(1)
+        return None      # forms involving an object part are left to the generated matchers
+
+
 class C05(Prop):
     id = 'C05'
     rule = ('each case = a generated multi-connection history run through the real pipeline (the message universe) + 6 matcher ASTs drawn from '
@@ -212,7 +325,7 @@ class C05(Prop):
     assumptions = ['reference semantics = DESIGN appendix A (written from matchers.md and the statement)',
                    'grammar bounds: no empty alternatives/exclusion lists, no * inside exclusions, no object labels as argument values, '
                    'string atoms without quotes/brackets/parentheses/commas/!']
-    stages = [Semantics(), EnumArgs(), ValueKinds(), NilArgs()]
+    stages = [Semantics(), EnumArgs(), ValueKinds(), NilArgs(), GdbUniverse()]
 
 
 PROP = C05()
